@@ -25,7 +25,7 @@ PROP = {
 }
 
 META = {
-    'text': 'Theorems (Coq, closed under the global context) about executable models of Routes::process_updates, AspaDefinitions::process_updates, updated_allowed_and_needed, BgpSecDefinitions::process_updates and the child add/update checks, for every state, holding and request: the accept/refuse condition as an if-and-only-if (sequential semantics, so duplicates inside one delta are covered), completeness and classification of the ROA error report, all-or-nothing at command level, the resulting configuration of an accepted request, max-length normalisation. Genuine prefix arithmetic: the holding check is decomposed into "a block of the prefix\'s family covers it" or "a block of the OTHER family with the same leading bits covers it"; the full statement "check = held" is refuted with a witness and proved outside that case. The stored ASPA configuration equals the request except for finding F01a (refuted in general, proved for requests that do not remove and define the same customer nor define one twice). Tied to the code by a correspondence run: the real Routes::process_updates on generated states/holdings/deltas, and the CaManager commands on a live in-process CA; every observed case is checked inside Coq against the model (agrees), against the boolean right-hand sides of the theorems (c05_ok) and against the strict reading of the property text (c05_strict).',
+    'text': 'Theorems (Coq, closed under the global context) about executable models of Routes::process_updates, AspaDefinitions::process_updates, updated_allowed_and_needed, BgpSecDefinitions::process_updates and the child add/update checks, for every state, holding and request: the accept/refuse condition as an if-and-only-if (sequential semantics, so duplicates inside one delta are covered), completeness and classification of the ROA error report, all-or-nothing at command level, the resulting configuration of an accepted request, max-length normalisation. Genuine prefix arithmetic: the holding check (RoaPayload::is_held_by) is proved equal to "a block of the prefix\'s own family covers it in the family\'s own address space" (the family-blind check of the originally pinned tree, finding F05a, is kept as a _pinned definition with its counterexample). The stored ASPA configuration after an accepted update equals the request (as provider sets) for every request, including those that remove and redefine a customer or define one twice (finding F01a, repaired; pinned variant kept with counterexample). An accepted child update never leaves the child entitled to nothing (finding F05c, repaired). Tied to the code by a correspondence run: the real Routes::process_updates on generated states/holdings/deltas, and the CaManager commands on a live in-process CA; every observed case is checked inside Coq against the model (agrees), against the boolean right-hand sides of the theorems (c05_ok) and against the strict reading of the property text (c05_strict).',
     'design_ref': 'DESIGN.md section 5 C05',
     'note': 'Trusted: Coq kernel + vm_compute; harness abstraction. Modelled not verified: src/server/ca/roa.rs:148-232, aspa.rs:56-184, bgpsec.rs:103-171, certauth.rs:1110-1133,1225-1261,2216-2226,2298-2388, api/roa.rs:62-125, api/aspa.rs:115-150, rpki contains_roa_address/contains_asn. Outside: OpenSSL CSR verification, request decoding, ROA/ASPA object issuance after acceptance.',
     'technique': 'Coq proof over configuration models (induction over request lists) + correspondence evaluated in Coq on the pure function and on live CaManager commands',
